@@ -11,9 +11,11 @@ Proved scope (stated honestly): every kind whose body is declared (`RepBody`): f
 with a counted vector of flat elements, the two set-valued kinds (MAL, IPB: in-domain sets are
 duplicate-free, as the crate's `IndexSet` keeps them) and the until-end-of-frame texts (III MTC BTN
 ACR: NUL-free text within the maximum), through the real framing in both size modes. The hand-written
-MSO body is covered by its own lemma (`decMso_encMso`). Only the 8-byte `GameVersion` text in VER is
-*not* covered by these theorems (its round trip involves printing a float); for it the tie is the
-correspondence run and the implementation-side oracle only.
+MSO body is covered by its own lemma (`decMso_encMso`). The 8-byte `GameVersion` text in VER is covered at
+the level of its text (`GvRep`: canonical major text, upper-case minor letter, printed text within 8
+bytes — `gv_roundtrip` in Lemmas/Customs.lean); that the standard library's `f32` parsing and shortest
+printing agree with that text-level view is an assumption recorded in C16 (`Laws`) and exercised by the
+correspondence run, not proved.
 -/
 namespace Insim.Props.C01
 open Insim Insim.Layout Insim.Frame
@@ -150,5 +152,12 @@ example : RepBody CRep Gen.Packets.lMtc { vals := [.n 1, .n 0, .n 2, .n 3], tail
   refine ⟨?_, trivial, ?_⟩
   · simp [Gen.Packets.lMtc, RepFields, RepAny, RepTy, arity, maxvOk, memN, tailCount]
   · exact ⟨by decide, by decide⟩
+
+/-- … and a VER announcing version 0.7D3, product "S3", InSim 9 -/
+example : RepBody CRep Gen.Packets.lVer { vals := [.n 1, .b [48, 46, 55], .n 68, .n 4, .b [83, 51], .n 9], tail := .none } := by
+  refine ⟨?_, trivial, trivial⟩
+  simp only [Gen.Packets.lVer, RepFields, RepAny, arity, List.take, List.drop, maxvOk, CRep]
+  refine ⟨by simp [RepTy], trivial, ⟨_, _, _, rfl, ?_⟩, trivial, by simp [RepTy], trivial, by simp [RepTy], trivial, trivial⟩
+  exact ⟨⟨by decide, by decide, by decide +kernel⟩, by omega, by omega, by decide +kernel⟩
 
 end Insim.Props.C01
